@@ -646,7 +646,10 @@ func createConnHandler(
 			ctx := stream.Context()
 
 			args := dynamicpb.NewMessage(argsDesc)
-			if err := stream.RecvMsg(args); err != nil {
+			err := stream.RecvMsg(args)
+			// A client stream may end without a single message.
+			noArgs := err == io.EOF && sd.ClientStreams
+			if err != nil && !noArgs {
 				return err
 			}
 
@@ -658,13 +661,18 @@ func createConnHandler(
 			if err != nil {
 				return err
 			}
-			if err := clientStream.SendMsg(args); err != nil {
+			if noArgs {
+				err = clientStream.CloseSend()
+			} else {
+				err = clientStream.SendMsg(args)
+			}
+			if err != nil {
 				return err
 			}
 
 			var inErr error
 			var wg sync.WaitGroup
-			if sd.ClientStreams {
+			if sd.ClientStreams && !noArgs {
 				wg.Add(1)
 				go func() {
 					for {
